@@ -170,6 +170,8 @@ pub struct ChainProg {
     pub branches: Vec<ChainBranch>,
     /// (place, inner macro, depth) of every nested invocation (C17)
     pub nestings: Vec<(String, String, usize)>,
+    /// (kind, closure text) of a handler whose body is a nested macro invocation (C17)
+    pub handler: Option<(String, String)>,
 }
 
 pub struct CG<'a> {
